@@ -410,6 +410,7 @@ type tcase struct {
 	Arrival  []int // arrival order (indices into the scenario's object list)
 	Epoch    uint64
 	Perm     []int // blob enumeration order (indices into the stored blob list, which is in scenario order)
+	Split    int   // cross-batch scenario only: how many of the permuted blobs precede the 1000 filler blobs
 }
 
 func scenarioByName(n string) *scenario {
@@ -522,7 +523,7 @@ func (c *checker) put(in *inst) { c.pool <- in }
 
 // resyncOne runs one rebuild in enumeration order perm and returns the status vector and the
 // reclaim result.
-func (c *checker) resyncOne(in *inst, w *world, sc *scenario, stored []int, epoch uint64, perm []int) (vec []string, listed, deleted map[oid.Address]bool, drained bool) {
+func (c *checker) resyncOne(in *inst, w *world, sc *scenario, stored []int, epoch uint64, perm []int, variant int, arrival []int) (vec []string, listed, deleted map[oid.Address]bool, drained bool) {
 	st := &permStorage{order: perm}
 	for _, oi := range stored {
 		st.objs = append(st.objs, w.byName[sc.objs[oi]])
@@ -531,7 +532,16 @@ func (c *checker) resyncOne(in *inst, w *world, sc *scenario, stored []int, epoc
 	if err := in.db.ResyncFromBlobstor(st, func(a oid.Address, err error) error {
 		return fmt.Errorf("iteration error for %s: %w", a, err)
 	}); err != nil {
-		c.r.Fatal("ResyncFromBlobstor %s %v: %v", sc.name, perm, err)
+		var ord []string
+		for _, p := range perm {
+			ord = append(ord, st.objs[p].name)
+		}
+		c.violation("rebuild-fails", fmt.Sprintf("scenario %s epoch %d: ResyncFromBlobstor over blobs in order %v (all of them accepted by the metabase when they arrived) fails: %v", sc.name, epoch, ord, err),
+			tcase{Scenario: sc.name, Variant: variant, Arrival: arrival, Epoch: epoch, Perm: perm})
+		// make the DB usable for the next case
+		if rerr := in.db.Reset(); rerr != nil {
+			c.r.Fatal("reset after failed resync: %v", rerr)
+		}
 	}
 	vec = in.vector(w)
 	var err error
@@ -748,7 +758,7 @@ func (c *checker) runScenario(sc *scenario, variant int, arrivals [][]int) (comp
 			}
 			// identity order first: reference for order independence
 			in := c.get()
-			ref, _, _, _ := c.resyncOne(in, w, sc, g.stored, e, perms[0])
+			ref, _, _, _ := c.resyncOne(in, w, sc, g.stored, e, perms[0], variant, g.arrival[vks[0]])
 			c.put(in)
 			var aborted atomic.Bool
 			enumx.Parallel(len(perms), func(pi int) {
@@ -758,7 +768,7 @@ func (c *checker) runScenario(sc *scenario, variant int, arrivals [][]int) (comp
 				}
 				in := c.get()
 				defer c.put(in)
-				vec, listed, deleted, drained := c.resyncOne(in, w, sc, g.stored, e, perms[pi])
+				vec, listed, deleted, drained := c.resyncOne(in, w, sc, g.stored, e, perms[pi], variant, g.arrival[vks[0]])
 				r.Eval(1)
 				tc := tcase{Scenario: sc.name, Variant: variant, Epoch: e, Perm: perms[pi], Arrival: g.arrival[vks[0]]}
 				var rp []string
@@ -809,6 +819,120 @@ func (c *checker) runScenario(sc *scenario, variant int, arrivals [][]int) (comp
 	return complete
 }
 
+// ---------------------------------------------------------------------------------------------
+// cross-batch scenario: 1000 filler blobs (= resyncBatchSize) + 4 related blobs, so that the related
+// blobs are spread over two PutBatch transactions in every possible way.
+
+var crossSc = scenario{name: "cross-batch", objs: []string{"C2", "R5", "T5", "T2"}, epochs: []uint64{0}}
+
+func fillers(w *world) []*uobj {
+	var fs []*uobj
+	for i := 0; i < 1000; i++ {
+		n := fmt.Sprintf("F%d", i)
+		u := &uobj{spec: spec{name: n, k: kReg}, id: mkID(n, kReg, 0), cnr: cnrs[0]}
+		u.id[0] = 0x85 + byte(i%8)
+		u.obj = baseObject(u.cnr, u.id, n, object.TypeRegular, 0)
+		u.addr = oid.NewAddress(u.cnr, u.id)
+		u.bin = u.obj.Marshal()
+		fs = append(fs, u)
+	}
+	return fs
+}
+
+func (c *checker) crossOne(in *inst, w *world, fs []*uobj, perm []int, split int) (vec []string, listed, deleted map[oid.Address]bool, drained bool) {
+	st := &permStorage{}
+	for _, n := range crossSc.objs {
+		st.objs = append(st.objs, w.byName[n])
+	}
+	st.objs = append(st.objs, fs...)
+	for _, p := range perm[:split] {
+		st.order = append(st.order, p)
+	}
+	for i := range fs {
+		st.order = append(st.order, len(crossSc.objs)+i)
+	}
+	for _, p := range perm[split:] {
+		st.order = append(st.order, p)
+	}
+	in.ep.v.Store(0)
+	if err := in.db.ResyncFromBlobstor(st, func(a oid.Address, err error) error { return err }); err != nil {
+		c.violation("rebuild-fails", fmt.Sprintf("cross-batch scenario perm %v split %d: %v", perm, split, err), tcase{Scenario: crossSc.name, Perm: perm, Split: split})
+		if rerr := in.db.Reset(); rerr != nil {
+			c.r.Fatal("reset: %v", rerr)
+		}
+	}
+	vec = in.vector(w)
+	var err error
+	listed, deleted, drained, err = in.reclaim()
+	if err != nil {
+		c.r.Fatal("reclaim: %v", err)
+	}
+	return
+}
+
+func (c *checker) crossIncremental(in *inst, w *world, fs []*uobj) []string {
+	if err := in.db.Reset(); err != nil {
+		c.r.Fatal("%v", err)
+	}
+	in.ep.v.Store(0)
+	var batch []*object.Object
+	for _, f := range fs {
+		batch = append(batch, f.obj)
+	}
+	if err := in.db.PutBatch(batch); err != nil {
+		c.r.Fatal("fillers: %v", err)
+	}
+	for _, n := range crossSc.objs {
+		if err := in.db.Put(w.byName[n].obj); err != nil {
+			c.r.Fatal("cross-batch incremental put %s: %v", n, err)
+		}
+	}
+	return in.vector(w)
+}
+
+func (c *checker) runCrossBatch(only *tcase) bool {
+	w := c.worlds[0]
+	fs := fillers(w)
+	in := c.get()
+	inc := c.crossIncremental(in, w, fs)
+	stored := []int{0, 1, 2, 3}
+	id := []int{0, 1, 2, 3}
+	ref, _, _, _ := c.crossOne(in, w, fs, id, 4)
+	c.put(in)
+	type job struct {
+		perm  []int
+		split int
+	}
+	var jobs []job
+	if only != nil {
+		jobs = []job{{only.Perm, only.Split}}
+	} else {
+		enumx.Perms(4, func(p []int) bool {
+			for k := 0; k <= 4; k++ {
+				jobs = append(jobs, job{append([]int(nil), p...), k})
+			}
+			return true
+		})
+	}
+	var aborted atomic.Bool
+	enumx.Parallel(len(jobs), func(i int) {
+		if c.r.Expired() {
+			aborted.Store(true)
+			return
+		}
+		in := c.get()
+		defer c.put(in)
+		j := jobs[i]
+		vec, listed, deleted, drained := c.crossOne(in, w, fs, j.perm, j.split)
+		c.r.Eval(1)
+		tc := tcase{Scenario: crossSc.name, Arrival: id, Perm: j.perm, Split: j.split}
+		c.judge(w, &crossSc, tc, stored, vec, ref, inc, listed, deleted, drained)
+		c.classes.Store(strings.Join(vec, " "), true)
+		c.r.Nontrivial(fmt.Sprintf("cross/%v/%d", j.perm, j.split))
+	})
+	return !aborted.Load()
+}
+
 var stat struct {
 	incArrivalDependent atomic.Int64
 	expiredLeftOut      atomic.Int64
@@ -832,8 +956,8 @@ func replay(c *checker, tc tcase) {
 	for i := range id {
 		id[i] = i
 	}
-	ref, _, _, _ := c.resyncOne(in, w, sc, stored, tc.Epoch, id)
-	vec, listed, deleted, drained := c.resyncOne(in, w, sc, stored, tc.Epoch, tc.Perm)
+	ref, _, _, _ := c.resyncOne(in, w, sc, stored, tc.Epoch, id, tc.Variant, tc.Arrival)
+	vec, listed, deleted, drained := c.resyncOne(in, w, sc, stored, tc.Epoch, tc.Perm, tc.Variant, tc.Arrival)
 	fmt.Printf("stored=%v rejected=%v\nnames       %v\nincremental %v\nidentity    %v\nperm        %v\n", stored, rejects, w.names, inc, ref, vec)
 	c.judge(w, sc, tc, stored, vec, ref, inc, listed, deleted, drained)
 	c.put(in)
@@ -876,7 +1000,11 @@ func main() {
 	if r.Replay != "" {
 		var tc tcase
 		r.LoadReplay(&tc)
-		replay(c, tc)
+		if tc.Scenario == crossSc.name {
+			c.runCrossBatch(&tc)
+		} else {
+			replay(c, tc)
+		}
 		finish()
 	}
 	variants := []int{0, 1}
@@ -924,6 +1052,12 @@ func main() {
 			if !c.runScenario(sc, v, arrivals) {
 				exhaustive = false
 			}
+		}
+	}
+	if r.Thorough() && exhaustive {
+		nsc++
+		if !c.runCrossBatch(nil) {
+			exhaustive = false
 		}
 	}
 	ncls := 0
